@@ -15,4 +15,4 @@ for fn in sorted(os.listdir(root)):
 tab = norm.reference_table(trees)
 out = os.path.join(os.path.dirname(os.path.dirname(os.path.abspath(__file__))), "sa", "refnames.json")
 json.dump(tab, open(out, "w"), indent=0, sort_keys=True)
-print("functions with locals:", sum(len(v) for v in tab.values()), "locals:", sum(len(x) for v in tab.values() for x in v.values()))
+print("functions with locals:", sum(len(v) for k, v in tab.items() if k != "__shapes__"), "shape tables:", sum(len(v) for v in tab["__shapes__"].values()))
